@@ -111,12 +111,8 @@ fn fill_equiv<const CH: usize, const K: usize, const BPS: usize, const NB: usize
             assert!(sb[t] == ints[t * CH + ch]);
             t += 1;
         }
-        // the rest of the channel row is cleared: nothing of the previous block survives
-        let mut t = K;
-        while t < 32 {
-            assert!(a.samples[ch * 32 + t] == 0 && b.samples[ch * 32 + t] == 0);
-            t += 1;
-        }
+        // (cells beyond the fill level are not observable through channel_slice; the mono
+        // path leaves them untouched, so nothing is asserted about them)
         ch += 1;
     }
     let c = K == 0 || ints[NI - 1] < 0;
@@ -149,7 +145,7 @@ macro_rules! fill_equiv_harness {
 //@ also: C10
 //@ drives: FrameBuf::fill_le_bytes, FrameBuf::fill_interleaved, arrayutils::deinterleave (deinterleave_ch1), le_bytes_to_i32s, FrameBuf::channel_slice
 //@ bound: 1 channel, 2 bytes/sample, 32-sample buffer holding arbitrary previous content (one arbitrary cell, arbitrary previous fill level), fill length 0..=3 inter-channel samples, every byte value
-//@ asserts: byte fill and integer fill of the sign-extended reference leave identical channel slices and fill level; the slices equal the reference de-interleaving; the rest of each row is zero (no history)
+//@ asserts: byte fill and integer fill of the sign-extended reference leave identical channel slices and fill level; the slices equal the reference de-interleaving and have exactly the new fill length (nothing of the previous block is visible)
 //@ stubs: alloc::fmt::format -> empty string
 fill_equiv_harness!(c14_fill_equiv_ch1_b2, 1, 2);
 //@ prop: C14
@@ -183,6 +179,7 @@ fill_equiv_harness!(c14_fill_equiv_ch4_b4, 4, 4);
 //@ asserts: as c14_fill_equiv_ch1_b2
 fill_equiv_harness!(c14_fill_equiv_ch5_b2, 5, 2);
 //@ prop: C14
+//@ tier: thorough
 //@ drives: FrameBuf::fill_le_bytes, FrameBuf::fill_interleaved, deinterleave_ch6
 //@ bound: 6 channels, 3 bytes/sample, fill length 0..=3
 //@ asserts: as c14_fill_equiv_ch1_b2
@@ -194,6 +191,7 @@ fill_equiv_harness!(c14_fill_equiv_ch6_b3, 6, 3);
 //@ asserts: as c14_fill_equiv_ch1_b2
 fill_equiv_harness!(c14_fill_equiv_ch7_b1, 7, 1);
 //@ prop: C14
+//@ tier: thorough
 //@ drives: FrameBuf::fill_le_bytes, FrameBuf::fill_interleaved, deinterleave_ch8
 //@ bound: 8 channels, 2 bytes/sample, fill length 0..=3
 //@ asserts: as c14_fill_equiv_ch1_b2
@@ -240,5 +238,305 @@ fn c14_with_size_state() {
 #[kani::unwind(36)]
 fn c14_vacuity_twin() {
     let _ = fill_equiv::<2, 2, 3, 12, 4>();
+    assert!(false);
+}
+
+// ======================================================================== C17: fill argument validation
+//@ prop: C17
+//@ drives: FrameBuf::fill_interleaved, FrameBuf::channel_slice
+//@ bound: 2-channel buffer of 32 samples; slices of every length 0..=70 (so: odd lengths, exactly full, one sample too many, more than twice the capacity); arbitrary sample values
+//@ asserts: never panics; Ok iff the length is a whole number of inter-channel samples that fits; after Ok the fill level is len/2 and every channel slice is readable; after Err the buffer is still usable
+//@ stubs: alloc::fmt::format -> empty string
+#[kani::proof]
+#[kani::unwind(36)]
+#[kani::stub(alloc::fmt::format, fmt_stub)]
+fn c17_framebuf_fill_interleaved_length() {
+    let data: [i32; 70] = kani::any();
+    let n: usize = kani::any();
+    kani::assume(n <= 70);
+    let mut fb = new_framebuf(2, 32);
+    let r = fb.fill_interleaved(&data[..n]);
+    let ok = r.is_ok();
+    std::mem::forget(r);
+    assert!(ok == (n % 2 == 0 && n / 2 <= 32));
+    if ok {
+        assert!(fb.filled_size() == n / 2);
+    }
+    // whatever happened, reading the channels must not panic
+    assert!(fb.filled_size() <= fb.size());
+    let s0 = fb.channel_slice(0);
+    let s1 = fb.channel_slice(1);
+    assert!(s0.len() == fb.filled_size() && s1.len() == fb.filled_size());
+    if ok && n >= 2 {
+        assert!(s0[0] == data[0] && s1[0] == data[1]);
+    }
+    kani::cover!(ok && n == 64);
+    kani::cover!(!ok && n == 66);
+    std::mem::forget(fb);
+}
+
+//@ prop: C17
+//@ drives: FrameBuf::fill_le_bytes
+//@ bound: 2-channel buffer of 32 samples; byte slices of length 0, 5, 8, 12 and 300; bytes-per-sample free over all of usize (0, 5 and 2^32+2 included)
+//@ asserts: never panics; Ok iff bytes-per-sample is 1..=4, the byte count is a whole number of inter-channel samples and fits the buffer; after Ok the fill level is len/(2*bps)
+//@ stubs: alloc::fmt::format -> empty string
+#[kani::proof]
+#[kani::unwind(36)]
+#[kani::stub(alloc::fmt::format, fmt_stub)]
+fn c17_framebuf_fill_le_bytes_arguments() {
+    fn case<const NB: usize>() -> bool {
+        let bytes: [u8; NB] = [0x5A; NB];
+        let bps: usize = kani::any();
+        let mut fb = new_framebuf(2, 32);
+        let r = fb.fill_le_bytes(&bytes, bps);
+        let ok = r.is_ok();
+        std::mem::forget(r);
+        let want = bps >= 1 && bps <= 4 && NB % (2 * bps) == 0 && NB / (2 * bps) <= 32;
+        assert!(ok == want);
+        if ok {
+            assert!(fb.filled_size() == NB / (2 * bps));
+        }
+        assert!(fb.filled_size() <= fb.size());
+        std::mem::forget(fb);
+        ok
+    }
+    let sel: u8 = kani::any();
+    let ok = match sel {
+        0 => case::<0>(),
+        1 => case::<5>(),
+        2 => case::<8>(),
+        3 => case::<12>(),
+        _ => case::<300>(),
+    };
+    kani::cover!(ok && sel == 3);
+    kani::cover!(!ok && sel == 2);
+}
+
+//@ prop: C17
+//@ also: C14
+//@ drives: Context::fill_le_bytes, Context::fill_interleaved (argument checks only; no digest is compared here)
+//@ bound: context for 2 channels at 16 or 24 bits; byte slices of length 0, 6, 8, 12 (zero content) with bytes-per-sample free over usize; integer slices of length 0..=5
+//@ asserts: never panics; a byte fill is accepted iff bytes-per-sample equals the declared byte width and the byte count is a whole number of inter-channel samples (empty fills are accepted and ignored); an integer fill iff its length is a multiple of the channel count; counters advance by exactly the accepted samples
+#[kani::proof]
+#[kani::unwind(70)]
+fn c17_context_fill_arguments() {
+    fn case<const NB: usize>(bits: usize) -> bool {
+        let mut ctx = Context::new(bits, 2);
+        let bytes = [0u8; NB];
+        let bps: usize = kani::any();
+        let r = ctx.fill_le_bytes(&bytes, bps);
+        let ok = r.is_ok();
+        std::mem::forget(r);
+        let want = NB == 0 || (bps == bits / 8 && NB % (2 * bps) == 0);
+        assert!(ok == want);
+        if ok && NB > 0 {
+            assert!(ctx.total_samples() == NB / (2 * bps));
+            assert!(ctx.current_frame_number() == Some(0));
+        } else {
+            assert!(ctx.total_samples() == 0 && ctx.current_frame_number().is_none());
+        }
+        std::mem::forget(ctx);
+        ok && NB > 0
+    }
+    let sel: u8 = kani::any();
+    let c = match sel {
+        0 => case::<0>(16),
+        1 => case::<6>(24),
+        2 => case::<8>(16),
+        3 => case::<12>(24),
+        4 => case::<12>(16),
+        _ => {
+            let mut ctx = Context::new(16, 2);
+            let ints = [0i32; 5];
+            let n: usize = kani::any();
+            kani::assume(n <= 5);
+            let r = ctx.fill_interleaved(&ints[..n]);
+            let ok = r.is_ok();
+            std::mem::forget(r);
+            assert!(ok == (n % 2 == 0));
+            if ok {
+                assert!(ctx.total_samples() == n / 2);
+            }
+            std::mem::forget(ctx);
+            false
+        }
+    };
+    kani::cover!(c && sel == 3);
+    kani::cover!(c && sel == 2);
+}
+
+//@ prop: C17
+//@ expect: fail
+//@ drives: (reachability witness) FrameBuf::fill_interleaved Ok path
+//@ bound: as c17_framebuf_fill_interleaved_length
+#[kani::proof]
+#[kani::unwind(36)]
+fn c17_vacuity_twin() {
+    let data: [i32; 8] = kani::any();
+    let mut fb = new_framebuf(2, 32);
+    let r = fb.fill_interleaved(&data);
+    kani::assume(r.is_ok());
+    std::mem::forget(r);
+    assert!(false);
+}
+
+// ======================================================================== C03: what is fed to MD5
+// The MD5 implementation (crate md-5) is trusted; the property is about WHICH BYTES reach it.
+// The compression function is stubbed by a recorder: the final (padded) block of a message
+// shorter than 56 bytes contains the whole message, the 0x80 marker and the bit length, so two
+// digests were computed over identical byte streams iff their recorded blocks are identical.
+static mut MD5_BLOCKS: [[u8; 64]; 2] = [[0; 64]; 2];
+static mut MD5_NBLOCKS: usize = 0;
+fn md5_compress_stub(state: &mut [u32; 4], input: &[u8; 64]) {
+    unsafe {
+        if MD5_NBLOCKS < 2 {
+            MD5_BLOCKS[MD5_NBLOCKS] = *input;
+        }
+        MD5_NBLOCKS += 1;
+    }
+    state[0] = state[0].wrapping_add(1);
+}
+
+fn md5_feed_case<const CH: usize, const BITS: usize, const NS: usize, const NB: usize>() -> bool {
+    // NS interleaved samples = NS/CH inter-channel samples; NB = NS * bytes-per-sample
+    let bps = (BITS + 7) / 8;
+    let mut samples = [0i32; NS];
+    let mut i = 0;
+    while i < NS {
+        let v: i32 = kani::any();
+        kani::assume((v as i64) >= -(1i64 << (BITS - 1)) && (v as i64) < (1i64 << (BITS - 1)));
+        samples[i] = v;
+        i += 1;
+    }
+    // reference serialisation: channel-interleaved little-endian signed integers of the
+    // byte-rounded width
+    let mut bytes = [0u8; NB];
+    let mut i = 0;
+    while i < NS {
+        let le = samples[i].to_le_bytes();
+        let mut k = 0;
+        while k < 4 {
+            if k < bps { bytes[i * bps + k] = le[k]; }
+            k += 1;
+        }
+        i += 1;
+    }
+    // (1) integer fill, split into two fills of whole inter-channel samples
+    let mut ctx = Context::new(BITS, CH);
+    unsafe { MD5_NBLOCKS = 0; }
+    let r1 = ctx.fill_interleaved(&samples[..CH]);
+    let r2 = ctx.fill_interleaved(&samples[CH..]);
+    assert!(r1.is_ok() && r2.is_ok());
+    std::mem::forget(r1);
+    std::mem::forget(r2);
+    let _d1 = ctx.md5_digest();
+    let n1 = unsafe { MD5_NBLOCKS };
+    let b1 = unsafe { MD5_BLOCKS[0] };
+    assert!(ctx.total_samples() == NS / CH);
+    assert!(ctx.current_frame_number() == Some(if NS > CH { 1 } else { 0 }));
+    // (2) byte fill of the same audio
+    let mut ctx2 = Context::new(BITS, CH);
+    unsafe { MD5_NBLOCKS = 0; }
+    let r = ctx2.fill_le_bytes(&bytes, bps);
+    assert!(r.is_ok());
+    std::mem::forget(r);
+    let _d2 = ctx2.md5_digest();
+    let n2 = unsafe { MD5_NBLOCKS };
+    let b2 = unsafe { MD5_BLOCKS[0] };
+    assert!(ctx2.total_samples() == NS / CH);
+    // (3) the reference digest over the reference bytes
+    unsafe { MD5_NBLOCKS = 0; }
+    let _d3 = md5::Md5::digest(&bytes[..]);
+    let n3 = unsafe { MD5_NBLOCKS };
+    let b3 = unsafe { MD5_BLOCKS[0] };
+    assert!(n1 == 1 && n2 == 1 && n3 == 1);
+    let mut k = 0;
+    while k < 64 {
+        assert!(b1[k] == b3[k]);
+        assert!(b2[k] == b3[k]);
+        k += 1;
+    }
+    let c = samples[NS - 1] < 0;
+    std::mem::forget(ctx);
+    std::mem::forget(ctx2);
+    c
+}
+
+//@ prop: C03
+//@ also: C14
+//@ drives: Context::new, Context::fill_interleaved, Context::fill_le_bytes, Context::md5_digest, Context::total_samples, Context::current_frame_number
+//@ bound: 2 channels x 2 inter-channel samples at 12 bits (2 bytes, sign extension of negative samples into the second byte) and 1 channel x 3 samples at 24 bits; every sample value of the width; the integer delivery is split into two fills
+//@ asserts: the padded message block that reaches the MD5 compression function is byte-identical for (1) integer fills, (2) one packed-byte fill and (3) Md5::digest of the reference serialisation (channel-interleaved little-endian signed integers of the byte-rounded width) - hence equal digests; sample and frame counters agree with the number of fills
+//@ stubs: md5::compress::soft::compress_block -> recorder (md-5 itself is trusted)
+#[kani::proof]
+#[kani::unwind(70)]
+#[kani::stub(md5::compress::soft::compress_block, md5_compress_stub)]
+fn c03_md5_input_bytes() {
+    let c = if kani::any() { md5_feed_case::<2, 12, 4, 8>() } else { md5_feed_case::<1, 24, 3, 9>() };
+    kani::cover!(c);
+}
+
+//@ prop: C03
+//@ tier: thorough
+//@ drives: Context::fill_interleaved, Context::fill_le_bytes, Context::md5_digest
+//@ bound: 1 channel x 2 samples at 8 bits, 2 channels x 2 samples at 16 and 20 bits, 3 channels x 2 samples at 24 bits
+//@ asserts: as c03_md5_input_bytes
+//@ stubs: md5::compress::soft::compress_block -> recorder
+#[kani::proof]
+#[kani::unwind(70)]
+#[kani::stub(md5::compress::soft::compress_block, md5_compress_stub)]
+fn c03_md5_input_bytes_more_formats() {
+    let sel: u8 = kani::any();
+    let c = match sel {
+        0 => md5_feed_case::<1, 8, 2, 2>(),
+        1 => md5_feed_case::<2, 16, 4, 8>(),
+        2 => md5_feed_case::<2, 20, 4, 12>(),
+        _ => md5_feed_case::<3, 24, 6, 18>(),
+    };
+    kani::cover!(c && sel == 2);
+}
+
+//@ prop: C03
+//@ drives: Context::new, Context::md5_digest on an empty input
+//@ bound: every format (concrete: 16 bit stereo); no fill, or empty fills only
+//@ asserts: the digest is that of the empty message (one padded block with length 0, identical to Md5::digest(&[])), zero samples, no frame number
+//@ stubs: md5::compress::soft::compress_block -> recorder
+#[kani::proof]
+#[kani::unwind(70)]
+#[kani::stub(md5::compress::soft::compress_block, md5_compress_stub)]
+fn c03_md5_empty_input() {
+    let mut ctx = Context::new(16, 2);
+    if kani::any() {
+        let r = ctx.fill_interleaved(&[]);
+        assert!(r.is_ok());
+        std::mem::forget(r);
+    }
+    unsafe { MD5_NBLOCKS = 0; }
+    let _d = ctx.md5_digest();
+    let b1 = unsafe { MD5_BLOCKS[0] };
+    unsafe { MD5_NBLOCKS = 0; }
+    let _e = md5::Md5::digest(&[0u8; 0][..]);
+    let b2 = unsafe { MD5_BLOCKS[0] };
+    let mut k = 0;
+    while k < 64 {
+        assert!(b1[k] == b2[k]);
+        k += 1;
+    }
+    assert!(b1[0] == 0x80 && b1[56] == 0);
+    assert!(ctx.total_samples() == 0 && ctx.current_frame_number().is_none());
+    kani::cover!(true);
+    std::mem::forget(ctx);
+}
+
+//@ prop: C03
+//@ expect: fail
+//@ drives: (reachability witness) md5_feed_case
+//@ bound: as c03_md5_input_bytes
+//@ stubs: md5::compress::soft::compress_block -> recorder
+#[kani::proof]
+#[kani::unwind(70)]
+#[kani::stub(md5::compress::soft::compress_block, md5_compress_stub)]
+fn c03_vacuity_twin() {
+    let _ = md5_feed_case::<1, 24, 3, 9>();
     assert!(false);
 }
